@@ -255,20 +255,13 @@ def build_results(tc, programs, cdir, batch=True):
             by_name[p.name] = r
         else:
             todo.append(p)
-    groups, single = [], []
-    cur = []
-    for p in todo:
-        if batch and G.batchable(p):
-            cur.append(p)
-            if len(cur) == BATCH:
-                groups.append(cur)
-                cur = []
-        else:
-            single.append(p)
-    if len(cur) == 1:
-        single += cur
-    elif cur:
-        groups.append(cur)
+    can = [p for p in todo if batch and G.batchable(p) and "// no-batch" not in p.dora]
+    single = [p for p in todo if p not in can]
+    # 8 compile units (x 2 back ends = one wave of 16 workers), at most BATCH members each
+    size = max(2, min(BATCH, -(-len(can) // 8)))
+    groups = [can[i:i + size] for i in range(0, len(can), size)]
+    if groups and len(groups[-1]) == 1:
+        single += groups.pop()
     with cf.ThreadPoolExecutor(max_workers=WORKERS) as ex:
         futs = [ex.submit(process_batch, tc, cdir, i, g) for i, g in enumerate(groups)]
         futs1 = [ex.submit(process_one, tc, cdir, p) for p in single]
